@@ -18,6 +18,17 @@ fn static_checks() {
     assert_send_sync::<Arc<JapaneseDictionary>>();
 }
 
+/// digest under catch_unwind: 0 = the analysis panicked (e.g. a lock poisoned by another thread's panic)
+fn digest_c<'a>(dict: &'a JapaneseDictionary, tok: &mut StatefulTokenizer<&'a JapaneseDictionary>, mode: Mode, text: &str) -> u64 {
+    match catch(|| digest(dict, tok, mode, text)) {
+        Ok(h) => h,
+        Err(_) => {
+            *tok = StatefulTokenizer::new(dict, Mode::C);
+            0
+        }
+    }
+}
+
 fn digest(dict: &JapaneseDictionary, tok: &mut StatefulTokenizer<&JapaneseDictionary>, mode: Mode, text: &str) -> u64 {
     tok.set_mode(mode);
     tok.reset().push_str(text);
@@ -34,7 +45,7 @@ fn digest(dict: &JapaneseDictionary, tok: &mut StatefulTokenizer<&JapaneseDictio
 }
 
 fn texts(rng: &mut Rng, n: usize) -> Vec<String> {
-    let pool = ["東京都", "京都", "東京", "に", "行っ", "た", "。", "アイウ", "ー", "123", "1,000.5", "a", "Zz", " ", "か", "が", "👍🏻", "ｶﾞ", "㍿", "é", "𠮷", "高輪ゲートウェイ駅", "特a", "な。な", "いく", "二千", "(とうきょう)", "xx"];
+    let pool = ["東京都", "京都", "東京", "に", "行っ", "た", "。", "アイウ", "ー", "123", "1,000.5", "a", "Zz", " ", "か", "が", "👍🏻", "ｶﾞ", "㍿", "é", "𠮷", "高輪ゲートウェイ駅", "特a", "な。な", "いく", "二千", "(とうきょう)", "xx", "東京(とうきょう)", "京都（きょうと）", "東（ひがし）", "都(と)"];
     (0..n)
         .map(|_| {
             let k = rng.below(10);
@@ -62,31 +73,61 @@ pub fn run(args: &Args) {
     let cfg = json!({"characterDefinitionFile": "char.def",
         "inputTextPlugin": [{"class": "com.worksap.nlp.sudachi.DefaultInputTextPlugin"},
             {"class": "com.worksap.nlp.sudachi.ProlongedSoundMarkPlugin", "prolongedSoundMarks": ["ー", "-", "〜"], "replacementSymbol": "ー"},
-            {"class": "com.worksap.nlp.sudachi.IgnoreYomiganaPlugin", "leftBrackets": ["(", "（"], "rightBrackets": [")", "）"], "maxYomiganaLength": 4}],
+            {"class": "com.worksap.nlp.sudachi.IgnoreYomiganaPlugin", "leftBrackets": ["(", "（"], "rightBrackets": [")", "）"], "maxYomiganaLength": 8}],
         "oovProviderPlugin": [{"class": "com.worksap.nlp.sudachi.RegexOovProvider", "oovPOS": pos, "leftId": 5, "rightId": 5, "cost": 3000, "regex": "[a-z]+", "maxLength": 32},
             {"class": "com.worksap.nlp.sudachi.SimpleOovPlugin", "oovPOS": pos, "leftId": 8, "rightId": 8, "cost": 6000}],
         "pathRewritePlugin": [{"class": "com.worksap.nlp.sudachi.JoinNumericPlugin", "enableNormalize": true},
             {"class": "com.worksap.nlp.sudachi.JoinKatakanaOovPlugin", "oovPOS": pos, "minLength": 3}],
         "connectionCostPlugin": [{"class": "com.worksap.nlp.sudachi.InhibitConnectionPlugin", "inhibitPair": [[1, 2]]}]});
-    let dict = Arc::new(load_dictionary(&dir, system, vec![user], &cfg).expect("dictionary"));
+    let dict_user = Arc::new(load_dictionary(&dir, system.clone(), vec![user], &cfg).expect("dictionary"));
+    // baseline instance without user dictionary; the threads of those rounds get a FRESH instance that has not analysed
+    // anything yet (not even while loading: a user dictionary with automatic costs tokenizes during load), so that races on
+    // lazily initialised shared state of plugins are exercised from the very first call
+    let dict_plain = Arc::new(load_dictionary(&dir, system.clone(), vec![], &cfg).expect("dictionary"));
 
     let rounds = if args.replay.is_some() { 0 } else { args.n(40, 400) };
     for round in 0..rounds {
         let nthreads = 2 + rng.below(7) as usize;
-        let pool_texts = texts(&mut rng, 12);
+        let mut pool_texts = texts(&mut rng, 12);
+        // every 4th round: contention on one plugin — all texts rewritten by the same input-text plugin at different offsets
+        let contention = round % 4 == 2;
+        if contention {
+            let pre = ["", "a", "東", "ア。", "1の"];
+            let ym = ["東京(とうきょう)", "京都（きょうと）", "東（ひがし）", "都(と)", "ＡＢＣ", "ｱｲｳ", "ーーー"];
+            for t in pool_texts.iter_mut() {
+                // several rewritten spans per text: the threads spend most of their time inside the plugins' match loops
+                let k = 3 + rng.below(6);
+                let mut s = String::new();
+                for _ in 0..k {
+                    s.push_str(*rng.pick(&pre[..]));
+                    s.push_str(*rng.pick(&ym[..]));
+                }
+                *t = s;
+            }
+        }
+        let fresh = round % 2 == 1;
+        let base: Arc<JapaneseDictionary> = if fresh { dict_plain.clone() } else { dict_user.clone() };
+        let dict: Arc<JapaneseDictionary> = if fresh {
+            Arc::new(load_dictionary(&dir, system.clone(), vec![], &cfg).expect("dictionary"))
+        } else {
+            dict_user.clone()
+        };
         let modes = [Mode::A, Mode::B, Mode::C];
         // text id = index * 3 + mode
         let mut table: Vec<(u64, u64)> = vec![];
         {
-            let d: &JapaneseDictionary = &dict;
+            let d: &JapaneseDictionary = &base;
             let mut tok = StatefulTokenizer::new(d, Mode::C);
             for (i, t) in pool_texts.iter().enumerate() {
                 for (mi, m) in modes.iter().enumerate() {
-                    table.push(((i * 3 + mi) as u64, digest(d, &mut tok, *m, t)));
+                    table.push(((i * 3 + mi) as u64, digest_c(d, &mut tok, *m, t)));
                 }
             }
         }
-        let streams: Vec<Vec<u64>> = (0..nthreads).map(|_| (0..rng.below(12)).map(|_| rng.below(36)).collect()).collect();
+        sink.tag(if fresh { "fresh_dictionary_first_calls_race" } else { "shared_warm_dictionary" });
+        let slen = if contention { args.n(400, 3000) as u64 } else { rng.below(40) };
+        let nthreads = if contention { 8 } else { nthreads };
+        let streams: Vec<Vec<u64>> = (0..nthreads).map(|_| (0..slen).map(|_| rng.below(36)).collect()).collect();
         let events: Arc<Mutex<Vec<(usize, u64)>>> = Arc::new(Mutex::new(vec![]));
         let barrier = Arc::new(Barrier::new(nthreads));
         let panics = Arc::new(AtomicUsize::new(0));
@@ -127,7 +168,7 @@ pub fn run(args: &Args) {
             let mut tok = StatefulTokenizer::new(d, Mode::C);
             for (i, t) in pool_texts.iter().enumerate() {
                 for (mi, m) in modes.iter().enumerate() {
-                    if digest(d, &mut tok, *m, t) != table[i * 3 + mi].1 {
+                    if digest_c(d, &mut tok, *m, t) != table[i * 3 + mi].1 {
                         after_ok = false;
                     }
                 }
@@ -140,8 +181,15 @@ pub fn run(args: &Args) {
             clist(events.iter().map(|(t, h)| format!("({}%nat, {})", t, cn(*h))))
         );
         sink.tag(&format!("threads={}", nthreads));
+        if contention {
+            sink.tag("contention_round");
+        }
         let nontrivial = streams.iter().filter(|s| !s.is_empty()).count() >= 2;
-        let id = sink.case(term, json!({"kind": "rust-threads", "round": round, "threads": nthreads, "texts": pool_texts, "streams": streams}), nontrivial);
+        let id = if contention {
+            sink.case_rust_only(json!({"kind": "rust-threads-contention", "round": round, "threads": nthreads, "texts": pool_texts, "analyses_per_thread": slen}), nontrivial)
+        } else {
+            sink.case(term, json!({"kind": "rust-threads", "round": round, "threads": nthreads, "texts": pool_texts, "streams": streams}), nontrivial)
+        };
         // Rust-side oracle: per thread, in order
         let mut pos = vec![0usize; nthreads];
         for (t, h) in &events {
